@@ -322,6 +322,77 @@ def part_setupsave(ctx, work, events, meta):
             meta.append({"part": "constants", "source": "setupSave into " + case, "order": "parameter file written by setupSave"})
 
 
+def _savefolder_job(comm, c_obj, name, root, out):
+    from pygyro.utilities.savingTools import setupSave
+    out[comm.Get_rank()] = setupSave(c_obj, name, comm=comm, root=root)
+
+
+def part_savefolder(ctx, work, events, meta, quick):
+    """SaveFolder.tla (setupSave as a state machine over the working directory) replayed transition by transition: the directory is
+    put into the transition's source state, the real call is made on NRanks simulated ranks with the transition's root, and the
+    directory afterwards plus the name every rank returns must be the model's."""
+    from mpi4py import MPI
+    from pygyro.initialisation.constants import get_constants
+    nsim, nranks = (2, 2) if quick else (3, 3)
+    invs = ["ParamsAreCurrent", "OnlyReturnedTouched", "AutoNeverClobbers", "AutoLowestFree", "RanksAgree", "NamedReturnsItsName", "Dump"]
+    cfg = "INIT Init\nNEXT Next\nCONSTANTS NSim = %d NRanks = %d\n%sCHECK_DEADLOCK FALSE\n" % (nsim, nranks, "".join("INVARIANT %s\n" % i for i in invs))
+    r = ctx.tlc("SaveFolder", cfg, what="setupSave over the working directory: %d automatic names + one given name, %d ranks, every root" % (nsim, nranks), workers=1)
+    if r.violated:
+        raise Machinery("SaveFolder.tla violates %s: %s" % (r.violated, (r.trace_text or "")[:600]))
+    files = {"a": scenarios.write_constants(os.path.join(work, "sf_a.json"), m=7, eps=0.2), "b": scenarios.write_constants(os.path.join(work, "sf_b.json"), m=3, eps=0.01, rp=5.75)}
+    objs = {k: get_constants(v) for k, v in files.items()}
+    ident = {k: (const_values(o)["m"], const_values(o)["eps"], const_values(o)["rp"]) for k, o in objs.items()}
+    seen, cwd = set(), os.getcwd()
+    base = os.path.join(work, "sf")
+    try:
+        for row in r.rows:
+            key = json.dumps({k: row[k] for k in ("act", "c", "root", "from") if k in row} | {"name": row.get("name")}, sort_keys=True)
+            if key in seen:
+                continue
+            seen.add(key)
+            shutil.rmtree(base, ignore_errors=True)
+            os.makedirs(base)
+            os.chdir(base)
+            for n, v in row["from"].items():
+                if v != "absent":
+                    os.mkdir(n)
+                    os.mkdir(os.path.join(n, "results"))          # what else a simulation folder holds is not the call's business
+                    if v != "empty":
+                        shutil.copy(files[v], os.path.join(n, "initParams.json"))
+            m = {"part": "savefolder", "transition": json.loads(key)}
+            try:
+                out = [None] * nranks
+                rs = MPI.run(nranks, _savefolder_job, args=(objs[row["c"]], row.get("name"), int(row["root"]), out), policy="asc", seed=0)
+                if not rs.ok:
+                    raise RuntimeError(rs.describe()[:300])
+                got, kept = {}, True
+                for n in row["to"]:
+                    if not os.path.isdir(n):
+                        got[n] = "absent"
+                    elif not os.path.exists(os.path.join(n, "initParams.json")):
+                        got[n] = "empty"
+                    else:
+                        cv = const_values(get_constants(os.path.join(n, "initParams.json")))
+                        got[n] = next((k for k, idv in ident.items() if idv == (cv["m"], cv["eps"], cv["rp"])), "other")
+                    kept = kept and (row["from"][n] == "absent" or os.path.isdir(os.path.join(n, "results")))
+                extra = sorted(set(os.listdir(".")) - set(row["to"]))
+                events.append({"k": "folder", "ok": True, "act": row["act"], "c": row["c"], "name": row.get("name") or "", "nsim": nsim, "from": row["from"],
+                               "dir": got, "ret": [str(o) for o in out], "extra": extra, "kept": bool(kept)})
+                m.update(diff=sorted(n for n in row["to"] if got[n] != row["to"][n]), got={"dir": got, "ret": [str(o) for o in out]},
+                         model={"dir": row["to"], "ret": row["ret"]})
+                meta.append(m)
+            except Exception as ex:
+                events.append({"k": "folder", "ok": False, "act": row["act"], "c": row["c"], "name": row.get("name") or "", "nsim": nsim, "from": row["from"],
+                               "dir": row["from"], "ret": [], "extra": [], "kept": True, "err": "%s: %s" % (type(ex).__name__, ex)})
+                meta.append(m)
+            finally:
+                os.chdir(cwd)
+    finally:
+        os.chdir(cwd)
+        shutil.rmtree(base, ignore_errors=True)
+    ctx.extra["savefolder_transitions_replayed"] = len(seen)
+
+
 def part_setup_overrides(ctx, work, events, meta):
     """ConstSetup.tla (re-application of the constants by the set-up functions, keyword overrides, rp side effect) replayed:
     every keyword subset TLC enumerates is passed to the real setupCylindricalGrid; the constants returned must be the model's."""
@@ -472,6 +543,7 @@ def run(ctx):
         part_constants(ctx, rng, work, events, meta, quick)
         part_setup_overrides(ctx, work, events, meta)
         part_setupsave(ctx, work, events, meta)
+        part_savefolder(ctx, work, events, meta, quick)
         part_driver(ctx, rng, work, events, meta, quick)
     finally:
         shutil.rmtree(work, ignore_errors=True)
@@ -497,4 +569,4 @@ def run(ctx):
     ctx.sample({"meta": meta[0]})
     ctx.sample({"meta": next(m for m in meta if m.get("part") == "driver" and "run" in m.get("what", "")),
                 "event": next(e for e in events if e["k"] == "run")})
-    ctx.extra["events_by_kind"] = {k: sum(1 for e in events if e["k"] == k) for k in ("run", "final", "load", "dataset", "latest", "const")}
+    ctx.extra["events_by_kind"] = {k: sum(1 for e in events if e["k"] == k) for k in ("run", "final", "load", "dataset", "latest", "const", "folder")}
